@@ -8,8 +8,9 @@ processed; without a stop request and without an injected failure every item pas
 detector: 3 s); after a stop request process() returns without taking further items from the source; an exception raised by a task or by
 the source comes out of process() (it neither vanishes nor hangs).  The liveness clauses ("returns", "surfaces") are only ever decided here,
 by the time limit: they are not within reach of the safety contracts.
-Bound: items <= 8, tasks <= 3, latency <= 3 scheduling points, concurrency in 0..4 changed at <= 4 seeded moments; quick 500 schedules."""
-import argparse, asyncio, json, os, random, sys, time
+Bound: items <= 8, tasks <= 3, latency <= 3 scheduling points, initial concurrency 0..3 (0 = started while paused), concurrency in 0..4 changed at <= 4 seeded moments;
+quick 500 schedules.  A run that blocks the event loop itself (a coroutine spinning without yielding) is interrupted by an interval timer after 8 s and reported."""
+import argparse, asyncio, json, os, random, signal, sys, time
 ROOT = os.path.dirname(os.path.dirname(os.path.abspath(__file__)))
 sys.path.insert(0, ROOT)
 from compat import shim
@@ -54,7 +55,7 @@ def scenario(seed, cfg):
 
     async def run():
         pipe = Pipeline(Source(), [Task(k) for k in range(n_tasks)])
-        pipe.concurrency = rnd.randrange(1, 4)
+        pipe.concurrency = rnd.randrange(0, 4)          # 0: started while paused (resumed by the meddler below)
         main = asyncio.ensure_future(pipe.process())
         async def meddle():
             for _ in range(rnd.randrange(0, 5)):
@@ -84,7 +85,16 @@ def scenario(seed, cfg):
         if exc is not None and not isinstance(exc, Boom): problems.append('process() raised %s: %s' % (type(exc).__name__, str(exc)[:80]))
         # stray worker tasks must not keep running / hold exceptions nobody looks at
         await asyncio.sleep(0)
-    shim.run(run())
+    # a coroutine that spins without ever yielding blocks the event loop itself, so the 3 s limit above could never fire: an interval timer interrupts it from outside
+    class Blocked(BaseException): pass
+    def on_alarm(*a): raise Blocked()
+    old = signal.signal(signal.SIGALRM, on_alarm); signal.setitimer(signal.ITIMER_REAL, 8.0)
+    try:
+        shim.run(run())
+    except Blocked:
+        problems.append('the event loop was blocked for 8 s: a coroutine spins without yielding (mode %s, initial state of the run: see schedule)' % mode)
+    finally:
+        signal.setitimer(signal.ITIMER_REAL, 0); signal.signal(signal.SIGALRM, old)
     # ---- safety clauses over the log
     seen = set()
     per_item = {}
